@@ -22,6 +22,9 @@
 #include <yaclib/async/when_any.hpp>
 
 #include <cxxabi.h>
+#include <signal.h>
+#include <sys/wait.h>
+#include <unistd.h>
 
 #include <array>
 #include <exception>
@@ -753,6 +756,145 @@ std::string Monitor(const Scenario& sc, bool done) {
   return "";
 }
 
+// a fatal signal inside the library (e.g. a second Set on a moved-from promise) must not lose the failing input:
+// report the scenario + choice sequence as a violation and leave (not async-signal-safe, good enough for a crash report)
+vx::Explorer* gEx = nullptr;
+std::string gCurHeader;
+alignas(16) char gSigStack[1 << 16];
+
+void OnFatalSignal(int sig) {
+  static bool once = false;
+  if (once || gEx == nullptr) _exit(3);
+  once = true;
+  auto& ctx = gEx->ctx;
+  std::string v = "violation: crash: fatal signal " + std::to_string(sig) + " inside the library\nscenario: " + gCurHeader +
+                  "\nchoices: " + ctx.ChoiceString() + "\ntrace:";
+  for (auto& l : ctx.trace) v += "\n  " + l;
+  gEx->violations.insert(gEx->violations.begin(), v);
+  ++gEx->stats.violations;
+  ++gEx->stats.executions;
+  gEx->Report();
+  _exit(1);
+}
+
+void InstallSignalHandlers() {
+  stack_t ss{};
+  ss.ss_sp = gSigStack;
+  ss.ss_size = sizeof(gSigStack);
+  sigaltstack(&ss, nullptr);
+  struct sigaction sa{};
+  sa.sa_handler = &OnFatalSignal;
+  sa.sa_flags = SA_ONSTACK;
+  sigemptyset(&sa.sa_mask);
+  for (int sig : {SIGSEGV, SIGBUS, SIGABRT, SIGFPE, SIGILL}) sigaction(sig, &sa, nullptr);
+}
+
+void WriteAll(int fd, const void* p, std::size_t n) {
+  auto* c = static_cast<const char*>(p);
+  while (n > 0) {
+    auto k = ::write(fd, c, n);
+    if (k <= 0) _exit(4);
+    c += k;
+    n -= static_cast<std::size_t>(k);
+  }
+}
+bool ReadAll(int fd, void* p, std::size_t n) {
+  auto* c = static_cast<char*>(p);
+  while (n > 0) {
+    auto k = ::read(fd, c, n);
+    if (k <= 0) return false;
+    c += k;
+    n -= static_cast<std::size_t>(k);
+  }
+  return true;
+}
+void WriteStrings(int fd, const std::vector<std::string>& v) {
+  std::uint64_t n = v.size();
+  WriteAll(fd, &n, sizeof n);
+  for (auto& x : v) {
+    std::uint64_t k = x.size();
+    WriteAll(fd, &k, sizeof k);
+    WriteAll(fd, x.data(), x.size());
+  }
+}
+bool ReadStrings(int fd, std::vector<std::string>& v) {
+  std::uint64_t n = 0;
+  if (!ReadAll(fd, &n, sizeof n)) return false;
+  for (std::uint64_t i = 0; i < n; ++i) {
+    std::uint64_t k = 0;
+    if (!ReadAll(fd, &k, sizeof k)) return false;
+    std::string x(k, '\0');
+    if (!ReadAll(fd, x.data(), k)) return false;
+    v.push_back(std::move(x));
+  }
+  return true;
+}
+
+// explores one scenario in a child process (same trace file: the descriptor and its offset are shared) and merges the
+// child's statistics, samples and violations into the parent's explorer
+template <typename Run>
+void RunForked(vx::Explorer& ex, Run&& run) {
+  if (ex.out) std::fflush(ex.out);
+  std::fflush(stdout);
+  int fds[2];
+  if (::pipe(fds) != 0) {
+    run();
+    return;
+  }
+  pid_t pid = ::fork();
+  if (pid < 0) {
+    run();
+    return;
+  }
+  if (pid == 0) {
+    ::close(fds[0]);
+    ex.stats = vx::Stats{};
+    ex.samples.clear();
+    ex.violations.clear();
+    std::uint64_t ip0 = ex.ctx.injection_points;
+    run();
+    if (ex.out) std::fflush(ex.out);
+    std::uint64_t ip = ex.ctx.injection_points - ip0;
+    WriteAll(fds[1], &ex.stats, sizeof ex.stats);
+    WriteAll(fds[1], &ip, sizeof ip);
+    WriteStrings(fds[1], ex.samples);
+    WriteStrings(fds[1], ex.violations);
+    _exit(0);
+  }
+  ::close(fds[1]);
+  vx::Stats st{};
+  std::uint64_t ip = 0;
+  std::vector<std::string> samples, violations;
+  bool ok = ReadAll(fds[0], &st, sizeof st) && ReadAll(fds[0], &ip, sizeof ip) && ReadStrings(fds[0], samples) &&
+            ReadStrings(fds[0], violations);
+  ::close(fds[0]);
+  int status = 0;
+  ::waitpid(pid, &status, 0);
+  if (!ok) {
+    ++ex.stats.violations;
+    ex.violations.push_back("violation: crash: the exploring child process died\nscenario: " + gCurHeader + "\nchoices: \ntrace:");
+    return;
+  }
+  auto& a = ex.stats;
+  a.executions += st.executions;
+  a.distinct += st.distinct;
+  a.violations += st.violations;
+  a.deadlocks += st.deadlocks;
+  a.exhausted_scenarios += st.exhausted_scenarios;
+  a.truncated_scenarios += st.truncated_scenarios;
+  a.scenarios += st.scenarios;
+  a.trace_lines += st.trace_lines;
+  a.nondeterministic += st.nondeterministic;
+  a.asserts += st.asserts;
+  a.max_choices = std::max(a.max_choices, st.max_choices);
+  a.sum_preempts += st.sum_preempts;
+  a.sum_weaks += st.sum_weaks;
+  ex.ctx.injection_points += ip;
+  for (auto& x : samples)
+    if (ex.samples.size() < 3) ex.samples.push_back(x);
+  for (auto& x : violations) ex.violations.push_back(x);
+}
+
 void OnAtomicLazy(void* c, const void* obj, int op, int so, int fo, unsigned long long a, unsigned long long e,
                   unsigned long long r, int ok) {
   auto* ctx = static_cast<vx::Ctx*>(c);
@@ -788,6 +930,8 @@ int main(int argc, char** argv) {
   vx::Explorer ex(opt);
   yaclib::verif::gHooks.on_atomic = &OnAtomicLazy;
   std::set_terminate(&OnTerminate);
+  gEx = &ex;
+  InstallSignalHandlers();
   AddAllFor<kNone>();
   AddAllFor<kFF>();
   AddAllExtra();
@@ -800,7 +944,22 @@ int main(int argc, char** argv) {
     if (!opt.has_replay && opt.mode == "dfs") {
       ex.ctx.preempt_bound = sc.n >= 3 ? (pb3 >= 0 ? pb3 : std::max(0, opt.preempt_bound - 1)) : opt.preempt_bound;
     }
-    ex.Run(sc.Header(), [&] { sc.body(sc); }, [&](bool done) { return Monitor(sc, done); });
+    gCurHeader = sc.Header();
+    // every execution that ends in std::terminate leaks its parked fibers (their stacks are mmap'ed and the number of
+    // mappings of a process is limited): such scenarios are explored in a forked child, bounded, and merged back
+    int fails = 0;
+    for (char c : sc.pattern) fails += c != 'V';
+    bool crash_prone = sc.kind == "alltuple" && sc.policy == "firstfail" && fails >= 2;
+    auto run = [&] { ex.Run(gCurHeader, [&] { sc.body(sc); }, [&](bool done) { return Monitor(sc, done); }); };
+    if (!crash_prone || opt.has_replay) {
+      run();
+    } else if (opt.only.empty() || opt.only == gCurHeader) {
+      ex.opt.max_exec = std::min<std::uint64_t>(opt.max_exec, 12000);
+      ex.opt.random_runs = std::min<std::uint64_t>(opt.random_runs, 1000);
+      RunForked(ex, run);
+      ex.opt.max_exec = opt.max_exec;
+      ex.opt.random_runs = opt.random_runs;
+    }
     // the explorer keeps the first 20 violations only: keep one per (message, api) so that a known finding that fails
     // in every schedule cannot crowd out anything else
     std::set<std::string> keys;
